@@ -25,6 +25,12 @@ type Clause struct {
 	Broken string // non-empty: the clause no longer type-checks against the code (message)
 }
 
+// ArgWrite: `writesarg <param> <components>`.
+type ArgWrite struct {
+	Param string
+	Items []string
+}
+
 type ArgDesc struct {
 	Kind string // recv, param, result, freevar, local, logical
 	Idx  int
@@ -72,6 +78,7 @@ type Contract struct {
 	LoopFresh   map[int][]string
 	KFExcept    []KFClause
 	Appends     []string // ghost logs that receive exactly one entry per call (trusted primitives only)
+	ArgWrites   []ArgWrite // components written only inside the object a pointer parameter refers to (or in fresh objects)
 }
 
 type KFClause struct {
@@ -178,7 +185,7 @@ func (cs *ContractSet) parseContractText(file string, lines []string, lineNos []
 			cs.immutables = append(cs.immutables, im)
 		case "constglobal":
 			cs.consts[strings.TrimSpace(rest)] = true
-		case "mode", "logical", "requires", "ensures", "defines", "loop", "inline", "noinline", "trusted", "pure", "modifies", "noreturn", "assume", "call", "mayblock", "nonblocking", "unchecked", "appends", "lemmas", "freshwrites", "deadreturns":
+		case "mode", "logical", "requires", "ensures", "defines", "loop", "inline", "noinline", "trusted", "pure", "modifies", "noreturn", "assume", "call", "mayblock", "nonblocking", "unchecked", "appends", "lemmas", "freshwrites", "deadreturns", "writesarg":
 			if cur == nil {
 				cs.errs = append(cs.errs, src+": clause outside func block")
 				continue
@@ -210,6 +217,15 @@ func (cs *ContractSet) parseContractText(file string, lines []string, lineNos []
 				for _, k := range strings.Split(rest, ",") {
 					cur.Fresh = append(cur.Fresh, strings.TrimSpace(k))
 				}
+			case "writesarg":
+				pn, items := splitWord(rest)
+				aw := ArgWrite{Param: pn}
+				for _, k := range strings.Split(items, ",") {
+					if k = strings.TrimSpace(k); k != "" {
+						aw.Items = append(aw.Items, k)
+					}
+				}
+				cur.ArgWrites = append(cur.ArgWrites, aw)
 			case "lemmas":
 				for _, k := range strings.Split(rest, ",") {
 					cur.Lemmas = append(cur.Lemmas, strings.TrimSpace(k))
